@@ -395,6 +395,9 @@ pub struct World {
     last_touch: BTreeMap<u64, u64>,
     /// the application may reuse the id of a request in flight (focus c19dup)
     dup_ids: bool,
+    /// key term of the peer request injected last (cleared when used)
+    last_req_key: Option<KeyT>,
+    next_req_key: Option<KeyT>,
     /// the local record as the handler holds it (the application may update it while the node runs)
     local_enr_shared: Option<Arc<RwLock<Enr>>>,
     /// random (unscripted) requests of peers may be sealed under junk keys
@@ -502,6 +505,8 @@ impl World {
             ttl_ms: 86_400_000,
             last_touch: BTreeMap::new(),
             dup_ids: false,
+            last_req_key: None,
+            next_req_key: None,
             local_enr_shared: None,
             junk_keys: false,
             force_junk: None,
@@ -1352,6 +1357,17 @@ impl Runner {
                 let what = format!("the application answered a request in the step after its delivery, {} datagrams went to the requester instead of one", sent);
                 self.w.failures.push((if is_talk { "C20" } else { "C14" }.into(), what));
             }
+            // ... sealed under the generation of keys the request came in on (a peer that still uses
+            // the previous keys after a re-key must be able to read its answer)
+            if let Some(rk) = self.w.last_req_key.take() {
+                let under: Vec<KeyT> = self.steps.last().map(|s| s.wires.iter().filter(|(d, _)| *d == a).filter_map(|(_, p)| match p { APkt::Msg { ct: ACt::Enc(k, ..), .. } => Some(k.clone()), _ => None }).collect()).unwrap_or_default();
+                if let Some(k) = under.first() {
+                    if !(k.eph == rk.eph && k.cd == rk.cd && k.half != rk.half) {
+                        let what = "the answer to a request delivered a step earlier is sealed under another generation of session keys than the request came in on: the requester cannot read it".to_string();
+                        self.w.failures.push((if is_talk { "C20" } else { "C14" }.into(), what));
+                    }
+                }
+            }
         }
     }
 
@@ -1409,6 +1425,8 @@ impl Runner {
     /// Delivers a datagram; returns false if it is not a decodable discv5 packet for the local node
     /// (then the handler only reports an unrecognised frame and no model event is generated).
     async fn inject(&mut self, src: SocketAddr, bytes: Vec<u8>, kind: &'static str, maker: usize, mutated: bool, forged_for: Option<usize>) {
+        // (the key term of a peer request travels with its datagram: any other datagram clears it)
+        self.w.last_req_key = self.w.next_req_key.take();
         self.tick_gap().await;
         let local = self.w.local_id;
         let term = self.w.abstract_datagram(&local, &bytes[..bytes.len().min(1280)]);
@@ -1529,7 +1547,8 @@ impl Runner {
     }
 
     fn some_request_bytes(&mut self, rng: &mut Rng) -> (RequestId, Vec<u8>) {
-        let idl = rng.range(1, 8) as usize;
+        // (a peer may choose any id of at most 8 bytes, the empty one included)
+        let idl = if rng.chance(1, 8) { 0 } else { rng.range(1, 8) as usize };
         let id = RequestId(rng.bytes(idl));
         let body = match rng.below(3) {
             0 => RequestBody::Ping { enr_seq: rng.below(9) },
@@ -1553,6 +1572,8 @@ impl Runner {
             self.w.fail("C06", format!("a well-formed request does not decode to itself: {:?}", req));
             if !is_talk {
                 self.w.fail("C14", format!("a well-formed PING / FINDNODE request is rejected by the decoder and never reaches the service: {:?}", req));
+            } else {
+                self.w.fail("C20", format!("a well-formed TALKREQ does not reach the application as sent (its id decides the id of the TALKRESP): {:?}", req));
             }
         }
         (id, bytes)
@@ -1779,6 +1800,7 @@ impl Runner {
         let bytes = wire_encode(&p, self.w.pid, &self.w.local_id);
         let src = self.w.peers[pi].addr;
         let n0 = self.steps.len();
+        self.w.next_req_key = if junk_key || borrowed { None } else { self.w.keys.iter().find(|(b, _)| *b == ek).map(|(_, t)| t.clone()) };
         self.inject(src, bytes, if junk_key { "junk-key-request" } else { "request" }, pi, false, if borrowed { Some(victim) } else { None }).await;
         if junk_key && self.steps[n0..].iter().any(|s| s.outs.iter().any(|o| matches!(o, AOut::Request(..) | AOut::Response(..)))) {
             self.w.failures.push(("C02".into(), "a message sealed under a key that no handshake with this node produced was delivered".into()));
@@ -2095,7 +2117,7 @@ async fn run_case(seed: u64, idx: u64, focus: &str, thorough: bool, fixes: &str)
     // scripted opening for the nonce property: several requests under the first keys, a re-key
     // started by the peer (it challenges an in-flight request), a message of the peer still under
     // the first keys (the session falls back to them), then further requests
-    if (focus == "c19" && rng.chance(1, 3)) || (matches!(focus, "c01" | "c02") && rng.chance(1, 5)) {
+    if (focus == "c19" && rng.chance(1, 3)) || (matches!(focus, "c01" | "c02") && rng.chance(1, 5)) || (matches!(focus, "c20" | "c14") && rng.chance(1, 4)) {
         let p = rng.below(npeers as u64) as usize;
         r.app_request(&mut rng, p, true, 0).await;
         let q0 = r.w.reqs.len() - 1;
@@ -2107,6 +2129,12 @@ async fn run_case(seed: u64, idx: u64, focus: &str, thorough: bool, fixes: &str)
         let q1 = r.w.reqs.len() - 1;
         r.net_whoareyou(&mut rng, FORCE + q1).await;
         r.net_request(&mut rng, p, true, false).await;
+        // (the application answers the request that came in under the previous keys at once: the
+        // answer must be readable for a peer that still uses them)
+        if matches!(focus, "c20" | "c14") {
+            let body_kind = rng.below(3) as u8;
+            r.app_respond(&mut rng, FORCE, body_kind).await;
+        }
         for _ in 0..rng.range(1, 3) {
             r.app_request(&mut rng, p, true, 2).await;
         }
